@@ -1,0 +1,36 @@
+//go:build verif
+
+package corazawaf
+
+import "os"
+
+// Verification hook for property C20 (add-only, build tag verif): read-only access to the spill
+// file of the request body buffer so that the fault-injection harness in /verif/harness/c20 can
+// close the handle behind the buffer's back (later Write / ReadAt / Close on it then fail) and
+// can name the file (pre-removing it makes the Remove in Reset fail). No logic of its own.
+
+// VerifC20Spill returns the spill file handle of the request (response = false) or response
+// (response = true) body buffer and its name; (nil, "") while the body is buffered in memory.
+func (tx *Transaction) VerifC20Spill(response bool) (*os.File, string) {
+	b := tx.requestBodyBuffer
+	if response {
+		b = tx.responseBodyBuffer
+	}
+	if b == nil || b.writer == nil {
+		return nil, ""
+	}
+	return b.writer, b.writer.Name()
+}
+
+// VerifC20BufferState returns (length, bytes held in memory, spill file in use, live readers) of the
+// request or response body buffer.
+func (tx *Transaction) VerifC20BufferState(response bool) (length int64, memLen int, spilled bool, readers int) {
+	b := tx.requestBodyBuffer
+	if response {
+		b = tx.responseBodyBuffer
+	}
+	if b == nil {
+		return 0, 0, false, 0
+	}
+	return b.length, b.buffer.Len(), b.writer != nil, len(b.readers)
+}
